@@ -447,7 +447,7 @@ def _run_chunk(ctx, gen, hists, do_model, state):
 
 
 def correspondence(ctx):
-    _run(ctx, "hist", ctx.n(1200, 30000), True)
+    _run(ctx, "hist", ctx.n(1200, 20000), True)
 
 
 def oracle(ctx):
